@@ -17,16 +17,19 @@ def run(R):
     thorough = R.tier == "thorough"
     R.model_check("AeadCtx", "MC_AeadCtx.cfg", need_actions=["AddData", "ToEnc", "ToDec", "Enc", "Dec", "Finalize"], workers=4)
     cases = []
+    lens_t = LENS + [31, 32, 33, 127, 128, 129, 255, 256, 257]
     for kl in (16, 32):
-        pairs = [(a, p) for a in LENS for p in LENS] if thorough else \
+        pairs = [(a, p) for a in lens_t for p in lens_t] if thorough else \
             [(a, p) for a in LENS for p in LENS if (a + p + kl) % 5 == 0 or a == p or (a, p) in ((0, 65), (17, 63), (16, 16))]
         for (a, p) in pairs:
             cases.append((20, kl, a, p))
     for rounds in (8, 12):
         for kl in (16, 32):
             cases.append((rounds, kl, 17, 65))
-    for n in ([1000, 4096, 5000] if thorough else [1500]):
-        cases.append((20, 32, R.rng.randrange(0, 300), n))
+            if thorough:
+                cases += [(rounds, kl, a, p) for a in LENS for p in LENS if (a + p) % 3 == 0]
+    for n in ([1000, 4096, 5000] + [R.rng.randrange(66, 3000) for _ in range(40)] if thorough else [1500]):
+        cases.append((20, 32 if n % 2 else 16, R.rng.randrange(0, 300), n))
     enc = []
     meta = {}
     for (rounds, kl, a, p) in cases:
@@ -38,6 +41,8 @@ def run(R):
         h1 = ac.one_history(R, rounds, key, nonce, aad, pt, "enc")
         h2 = ac.inc_history(R, rounds, key, nonce, aad, pt, "enc", k_aad=R.rng.choice([1, 2, 3]), k_data=R.rng.choice([1, 2, 3]))
         enc += [h1, h2]
+        if thorough:      # two more partitions of the same data across the incremental calls
+            enc += [ac.inc_history(R, rounds, key, nonce, aad, pt, "enc", k_aad=R.rng.choice([1, 2, 3]), k_data=R.rng.choice([1, 2, 3])) for _ in range(2)]
         meta[h1["id"]] = (rounds, key, nonce, aad, pt)
         R.count(("enc", rounds, kl, a, p), trivial=(a == 0 and p == 0))
     res = R.conform("TraceAead", enc, cost=ac.cost_aead, describe=ac.describe, label="TraceAead.enc")
@@ -54,7 +59,7 @@ def run(R):
         R.count(("dec", rounds, len(key), len(aad), len(ct)), trivial=(not aad and not ct))
     res2 = R.conform("TraceAead", dec, cost=ac.cost_aead, describe=ac.describe, label="TraceAead.dec")
     R.rule = ("phase 1: one-shot encrypt + incremental encryption (seeded partitions into <=3 add_data and <=3 encrypt/encrypt_mut calls) per (rounds, key length, |aad|, |pt|) with lengths from "
-              "{0,1,15,16,17,63,64,65} (" + ("all 64 pairs" if thorough else "a covering subset") + " per key length) + rounds 8/12 + seeded long; phase 2: one-shot and incremental decryption "
+              "{0,1,15,16,17,63,64,65} (" + ("all 289 pairs of 17 lengths, 3 partitions each, 40 seeded long messages" if thorough else "a covering subset") + " per key length) + rounds 8/12 + seeded long; phase 2: one-shot and incremental decryption "
               "(decrypt / decrypt_mut) of the observed ciphertext and tag; distinct = (phase, rounds, key length, lengths); non-trivial = not both empty")
     for r in res["records"][:2] + res2["records"][:2] + res2["records"][-1:]:
         R.sample({"cls": r["cls"], "rounds": r["rounds"], "keylen": len(r["key"]), "aad_len": len(r.get("aad", [])),
